@@ -26,6 +26,13 @@ CHECKS = {
             "Count/Sum(1)/HigherDegree over GF(17) in the thorough tier. Soundness counting is checked on the model under C02.",
             "Tiny-field instantiations share the generic source with Field64/Field128 but are different monomorphizations; randomness from pattern families "
             "outside the exhaustive sub-space; HigherDegree is re-declared in the harness from public API because the in-tree one is pub(crate) and Field64-only."),
+    "C12": ("DESIGN.md#c12--ping-pong-topology",
+            "TLA+ spec of the ping-pong topology with a Dolev-Yao style network and persistence (PingPong.tla); TLC explores every delivery sequence "
+            "within a fault budget; every maximal behaviour replayed through the real topology API over an instrumented order-sensitive VDAF",
+            "Exhaustive (bounded) model checking of the leader/helper state machines for R=1..4 rounds against replayed, duplicated, re-typed, cross-round and "
+            "undecodable messages, with all maximal behaviours (>15k quick, >150k thorough) replayed on the real code: continuation kind, error kind, state, "
+            "outbound message, combiner order and released share compared after every action; continuations encoded/decoded/re-evaluated at every step.",
+            "Bounds: rounds <= 4, adversarial deliveries <= 1..3, behaviour length <= 8; the VDAF under the topology is the harness's instrumented one."),
 }
 
 NOT_YET = {}
